@@ -151,9 +151,13 @@ func (r *registry) put(addr string, sc *scenario) {
 	r.m[addr] = sc
 	r.mu.Unlock()
 }
-func (r *registry) del(addr string) {
+// del removes the entry only if it still belongs to sc: ports are reused as soon as a
+// socket is closed, and a later scenario may already own the address.
+func (r *registry) del(addr string, sc *scenario) {
 	r.mu.Lock()
-	delete(r.m, addr)
+	if r.m[addr] == sc {
+		delete(r.m, addr)
+	}
 	r.mu.Unlock()
 }
 func (r *registry) get(addr string) *scenario {
@@ -178,13 +182,22 @@ func (l *gateListener) Accept() (net.Conn, error) {
 	// the client registers its local address right after Dial returns
 	var sc *scenario
 	for i := 0; i < 2000 && sc == nil; i++ {
-		sc = reg.get(tc.RemoteAddr().String())
+		// an ephemeral port can be shared by connections to different listeners: the key is the pair
+		sc = reg.get(tc.RemoteAddr().String() + "->" + tc.LocalAddr().String())
 		if sc == nil {
 			time.Sleep(time.Millisecond)
 		}
 	}
+	if sc == nil {
+		unmatchedAccepts.Add(1)
+	} else if n := sc.lcAttached.Add(1); n > 1 {
+		sc.errf("harness: %d client-side connections attributed to this scenario", n)
+	}
 	return &gateConn{inner: tc, who: "LC", sc: sc}, nil
 }
+
+// unmatchedAccepts counts accepted connections for which no scenario was registered in time.
+var unmatchedAccepts atomic.Int64
 
 // gateDial is the DialContext given to the proxy's transport. Connections to
 // the far endpoint of a gated scenario are wrapped; all others use the dialer
